@@ -27,7 +27,7 @@ var c12Routes = []string{
 	"/t/{name}/{withOptional}", "/u/{y: /[0-9]+/}/?e", "/f/{m: **, capture: 3}/r/?d", "/{y: /a+/, z: /b+/}/?{o}", "/u/{y: /[0-9]+/}/?{o: /e+/}",
 }
 
-var c12Values = []string{"\x00absent", "v", "", "{x}", "{y}", "{self}", "a/b", "}", "{", "%2F", "x y", "v/y/v"}
+var c12Values = []string{"\x00absent", "v", "", "{x}", "{y}", "{self}", "a/b", "}", "{", "%2F", "x y", "v/y/v", "w?o", "/?"}
 
 type c12Case struct {
 	Route   string            `json:"route"`
